@@ -218,149 +218,386 @@ Theorem C11_dt_truncate_before_zone_refuted :   (* monotonicity fails for trunca
 Proof. exact dt_trunc_before_tz_refuted. Qed.
 Print Assumptions C11_dt_truncate_before_zone_refuted.
 
-(** * The same three clauses over the EXTENDED universe (Options/XValue.v, XModel.v):
-      floats are arbitrary dyadic rationals m/2^e (so numeric perturbations below
-      significant_digits / math_epsilon live inside structures), datetimes are atoms
-      (leaves, dict keys, set members), and the options record has truncate_datetime
-      and default_timezone.  Names are qualified with the X modules; [XModel.run_optF]
-      has the same dispatcher as [run_optF].  The two models are connected by the embedding theorem [C11_models_agree]
-      at the end of this file. *)
-From DD Require Options.XValue Options.XModel Options.XProofsBase Options.XProofsAtoms Options.XProofsKeys
-  Options.XProofsLists Options.XProofsAlt Options.XProofsSafe Options.XProofsMono Options.XProofsRun Options.XProofsWitness.
+(** * The three clauses - and option COMPOSITION - over the EXTENDED universe (Options/YValue.v, YModel.v; round 3):
+      floats are arbitrary dyadic rationals m/2^e and float('nan') OBJECTS (with identity), Decimal (m * 10^e),
+      datetime (naive / fixed offset), date, time, timedelta and members of Enum classes are atoms (leaves, dict keys,
+      set members); the options record has truncate_datetime, default_timezone, ignore_nan_inequality, use_enum_value
+      and number_format_notation.  The leaf function [YModel.leafR] returns Err where the code raises (the type check
+      skipped by use_enum_value, round() / replace() on the datetime types, int(round(nan, 0))).  Names are qualified
+      with the Y modules; the old model embeds into this one ([C11_models_agree] at the end of the file). *)
+From DD Require Options.YValue Options.YModel Options.YProofsBase Options.YProofsAtoms Options.YProofsKeys
+  Options.YProofsLists Options.YProofsAlt Options.YProofsSafe Options.YProofsMono Options.YProofsRun Options.YProofsWitness
+  Options.YProofsCompNum Options.YProofsComp Options.YProofsCompWitness.
 
+(* clause 1 at a leaf: altL = representation-equal | same string up to case / str-bytes | numbers (int, float, Decimal) equal
+   under the precision or tolerance in force | datetimes of one normalised instant | two nan objects under
+   ignore_nan_inequality | an Enum member and its (non-None) value under use_enum_value *)
 Theorem C11x_leaf_alt_empty : forall udiff F a b p1 p2,
-  XProofsAtoms.altL F a b = true -> XModel.diff_atomF udiff F a b p1 p2 = [].
-Proof. exact XProofsAtoms.diff_atomF_altL. Qed.
+  YProofsAtoms.altL F a b = true -> YModel.diff_atomF udiff F a b p1 p2 = [].
+Proof. exact YProofsAtoms.diff_atomF_altL. Qed.
 Print Assumptions C11x_leaf_alt_empty.
 
-Theorem C11x_set_member_alt_same_hash : forall F a b, XProofsAtoms.altS F a b = true -> XModel.hatomF F a = XModel.hatomF F b.
-Proof. exact XProofsAtoms.hatomF_altS. Qed.
+(* ... and it neither reports nor RAISES (leaf_ok: no date / timedelta under truncate_datetime, C11-TRUNC-DATE) *)
+Theorem C11x_leaf_alt_ok : forall udiff F a b p1 p2,
+  YProofsAtoms.altL F a b = true -> YProofsAtoms.leaf_ok F a = true -> YModel.leafR udiff F a b p1 p2 = YModel.Ok [].
+Proof. exact YProofsAtoms.leafR_altL. Qed.
+Print Assumptions C11x_leaf_alt_ok.
+
+Theorem C11x_key_alt_same_clean_key : forall F a b ca cb, YModel.cleaning F = true -> YProofsAtoms.altK F a b = true ->
+  YModel.clean_key F a = YModel.Ok ca -> YModel.clean_key F b = YModel.Ok cb -> YValue.py_eq ca cb = true.
+Proof. exact YProofsAtoms.clean_key_altK. Qed.
+Print Assumptions C11x_key_alt_same_clean_key.
+
+Theorem C11x_set_member_alt_same_hash : forall F a b, YProofsAtoms.altS F a b = true -> YModel.hatomF F a = YModel.hatomF F b.
+Proof. exact YProofsAtoms.hatomF_altS. Qed.
 Print Assumptions C11x_set_member_alt_same_hash.
 
 Theorem C11x_alt_empty_partial :
   forall F c udiff ops,
-  XValue.thr_num c <= XValue.thr_den c ->
-  (XValue.zip c = true \/ (XModel.o_excl F = [] /\ forall p xs ys, XProofsLists.tiles (ops p xs ys) 0 0 (length xs) (length ys) = true)) ->
-  forall t1 t2, XProofsAlt.alt F c t1 t2 -> XProofsAlt.guard F c t1 = true -> XProofsAlt.guard F c t2 = true ->
-  XModel.run_optF udiff ops c F t1 t2 = XModel.Ok ([], []).
-Proof. exact XProofsAlt.alt_empty_run. Qed.
+  YValue.thr_num c <= YValue.thr_den c ->
+  (YValue.zip c = true \/ (YModel.o_excl F = [] /\ forall p xs ys, YProofsLists.tiles (ops p xs ys) 0 0 (length xs) (length ys) = true)) ->
+  forall t1 t2, YProofsAlt.alt F c t1 t2 -> YProofsAlt.guard F c t1 = true -> YProofsAlt.guard F c t2 = true ->
+  YModel.run_optF udiff ops c F t1 t2 = YModel.Ok ([], []).
+Proof. exact YProofsAlt.alt_empty_run. Qed.
 Print Assumptions C11x_alt_empty_partial.
 
 Theorem C11x_copy_empty_partial :
   forall F c udiff ops,
-  XValue.thr_num c <= XValue.thr_den c ->
-  (XValue.zip c = true \/ (XModel.o_excl F = [] /\ forall p xs ys, XProofsLists.tiles (ops p xs ys) 0 0 (length xs) (length ys) = true)) ->
-  forall t1 t2, XProofsRun.copy F c t1 t2 -> XProofsAlt.guard F c t1 = true -> XProofsAlt.guard F c t2 = true ->
-  XModel.run_optF udiff ops c F t1 t2 = XModel.Ok ([], []).
-Proof. exact XProofsRun.copy_empty_run. Qed.
+  YValue.thr_num c <= YValue.thr_den c ->
+  (YValue.zip c = true \/ (YModel.o_excl F = [] /\ forall p xs ys, YProofsLists.tiles (ops p xs ys) 0 0 (length xs) (length ys) = true)) ->
+  forall t1 t2, YProofsRun.copy F c t1 t2 -> YProofsAlt.guard F c t1 = true -> YProofsAlt.guard F c t2 = true ->
+  YModel.run_optF udiff ops c F t1 t2 = YModel.Ok ([], []).
+Proof. exact YProofsRun.copy_empty_run. Qed.
 Print Assumptions C11x_copy_empty_partial.
 
+Example C11x_alt_instance :      (* nan leaves under ignore_nan_inequality, Decimal / float under significant_digits, a date, an Enum member, ... *)
+  YProofsWitness.xrun YProofsWitness.xczip YProofsWitness.YFnew YProofsWitness.ye1 YProofsWitness.ye2 = YModel.Ok ([], []).
+Proof. exact YProofsWitness.y_alt_by_theorem. Qed.
+
+(* clause 2 *)
 Theorem C11x_monotone_partial :
   forall F c udiff ops,
-  XValue.thr_num c <= XValue.thr_den c ->
-  (XValue.zip c = true \/ (XModel.o_excl F = [] /\ forall p xs ys, XProofsLists.tiles (ops p xs ys) 0 0 (length xs) (length ys) = true)) ->
+  YValue.thr_num c <= YValue.thr_den c ->
+  (YValue.zip c = true \/ (YModel.o_excl F = [] /\ forall p xs ys, YProofsLists.tiles (ops p xs ys) 0 0 (length xs) (length ys) = true)) ->
   (forall p q xs ys, ops p xs ys = ops q xs ys) ->
-  forall KU SU LU : XValue.atom -> Prop,
-  (XModel.cleaning F = true -> forall k k', KU k -> KU k' -> XValue.py_eq k k' = true -> XValue.atom_ty k = XValue.atom_ty k') ->
-  (forall x y, SU x -> SU y -> XModel.hatomF XModel.no_opts x = XModel.hatomF XModel.no_opts y -> x = y) ->
-  (forall u1 o1 u2 o2, LU (XValue.ADt u1 o1) -> LU (XValue.ADt u2 o2) ->
-     dt_changed None 0 (mkDt u1 o1) (mkDt u2 o2) = false -> XValue.ADt u1 o1 = XValue.ADt u2 o2) ->
+  forall KU SU LU : YValue.atom -> Prop,
+  (YModel.cleaning F = true -> forall k k', KU k -> KU k' -> YValue.py_eq k k' = true -> YValue.atom_ty k = YValue.atom_ty k') ->
+  (YModel.cleaning F = true -> forall k, KU k -> YValue.canon_atom k = true) ->
+  (YModel.cleaning F = true -> forall k k', KU k -> KU k' -> YProofsMono.multi_rep k = true ->
+     YValue.atom_ty k = YValue.atom_ty k' -> YValue.py_eq k k' = true -> k = k') ->
+  (forall x y, SU x -> SU y -> YModel.hatomF YModel.no_opts x = YModel.hatomF YModel.no_opts y -> x = y) ->
+  (forall u1 o1 u2 o2, LU (YValue.ADt u1 o1) -> LU (YValue.ADt u2 o2) ->
+     dt_changed None 0 (mkDt u1 o1) (mkDt u2 o2) = false -> YValue.ADt u1 o1 = YValue.ADt u2 o2) ->
+  (forall a, LU a -> YValue.canon_atom a = true) ->
+  (forall a b, LU a -> LU b -> YProofsMono.multi_rep a = true -> YValue.atom_ty a = YValue.atom_ty b -> YValue.py_eq a b = true -> a = b) ->
   forall t1 t2 r,
-  XModel.run_optF udiff ops c XModel.no_opts t1 t2 = XModel.Ok ([], r) ->
-  XProofsAlt.guard F c t1 = true -> XProofsAlt.guard F c t2 = true ->
-  XProofsMono.atoms_in KU SU LU t1 -> XProofsMono.atoms_in KU SU LU t2 ->
-  XModel.run_optF udiff ops c F t1 t2 = XModel.Ok ([], []).
-Proof. exact XProofsRun.monotone_run. Qed.
+  YModel.run_optF udiff ops c YModel.no_opts t1 t2 = YModel.Ok ([], r) ->
+  YProofsAlt.guard F c t1 = true -> YProofsAlt.guard F c t2 = true ->
+  YProofsMono.atoms_in KU SU LU t1 -> YProofsMono.atoms_in KU SU LU t2 ->
+  YModel.run_optF udiff ops c F t1 t2 = YModel.Ok ([], []).
+Proof. exact YProofsRun.monotone_run. Qed.
 Print Assumptions C11x_monotone_partial.
+
+Example C11x_monotone_instance :
+  YProofsWitness.xrun YProofsWitness.xczip YProofsWitness.YFnew YProofsWitness.ym YProofsWitness.ym = YModel.Ok ([], []).
+Proof. exact YProofsWitness.y_monotone_instance. Qed.
+
+(* clause 3: under the boolean guard [safe] (no Enum member under use_enum_value, no nan under 0 digits, no date / timedelta
+   under truncate_datetime, no datetime type under ignore_numeric_type_changes, no datetime-type key when key cleaning meets
+   a precision, no timedelta set member under a precision) the model never returns Err - for ALL values and options *)
+Theorem C11x_never_raises_partial :
+  forall F c udiff ops t1 t2,
+  YProofsSafe.safe F t1 = true -> YProofsSafe.safe F t2 = true -> exists r, YModel.run_optF udiff ops c F t1 t2 = YModel.Ok r.
+Proof. exact YProofsSafe.never_raises_run. Qed.
+Print Assumptions C11x_never_raises_partial.
+
+Theorem C11x_never_raises_diff_partial :
+  forall F c udiff ops t1 t2 p1 p2,
+  YProofsSafe.safe F t1 = true -> YProofsSafe.safe F t2 = true -> exists r, YModel.diffF udiff ops c F t1 t2 p1 p2 = YModel.Ok r.
+Proof. exact YProofsSafe.never_raises. Qed.
+Print Assumptions C11x_never_raises_diff_partial.
 
 Theorem C11x_no_new_raise_partial :
   forall F c udiff ops t1 t2 r,
-  XModel.run_optF udiff ops c XModel.no_opts t1 t2 = XModel.Ok r ->
-  XProofsSafe.safe F t1 = true -> XProofsSafe.safe F t2 = true -> exists r', XModel.run_optF udiff ops c F t1 t2 = XModel.Ok r'.
-Proof. exact XProofsRun.no_new_raise_run. Qed.
+  YModel.run_optF udiff ops c YModel.no_opts t1 t2 = YModel.Ok r ->
+  YProofsSafe.safe F t1 = true -> YProofsSafe.safe F t2 = true -> exists r', YModel.run_optF udiff ops c F t1 t2 = YModel.Ok r'.
+Proof. exact YProofsRun.no_new_raise_run. Qed.
 Print Assumptions C11x_no_new_raise_partial.
 
-(* refuted: datetime options at keys / in sets, truncation before the zone, datetime keys under key cleaning *)
+Theorem C11x_plain_never_raises : forall v, YProofsSafe.safe YModel.no_opts v = true.      (* without options every value is safe *)
+Proof. exact YProofsSafe.safe_no_opts. Qed.
+Print Assumptions C11x_plain_never_raises.
+
+Example C11x_safe_instance : YProofsSafe.safe YProofsWitness.YFnew YProofsWitness.ye2 = true.
+Proof. exact YProofsWitness.y_safe. Qed.
+
+(* every part of the guard is needed: the raising corners, each a recorded finding *)
 Theorem C11x_datetime_key_raises_refuted :
-  exists a, XProofsWitness.xrun XProofsWitness.xcdef XModel.no_opts a a = XModel.Ok ([], []) /\
-            XProofsWitness.xrun XProofsWitness.xcdef (XProofsWitness.XFcase_sig 2) a a = XModel.Err XModel.EType.
-Proof. exact XProofsWitness.x_datetime_key_raises_refuted. Qed.
+  exists a, YProofsWitness.xrun YProofsWitness.xcdef YModel.no_opts a a = YModel.Ok ([], []) /\
+            YProofsWitness.xrun YProofsWitness.xcdef (YProofsWitness.XFcase_sig 2) a a = YModel.Err YModel.EType.
+Proof. exact YProofsWitness.x_datetime_key_raises_refuted. Qed.
 Print Assumptions C11x_datetime_key_raises_refuted.
 
+Theorem C11x_truncate_date_raises_refuted :          (* C11-TRUNC-DATE: a date against itself *)
+  exists a, YProofsAtoms.altL (YProofsWitness.XFtrunc UMinute) a a = true /\
+    YProofsWitness.xrun YProofsWitness.xcdef YModel.no_opts (YValue.VAtom a) (YValue.VAtom a) = YModel.Ok ([], []) /\
+    YProofsWitness.xrun YProofsWitness.xcdef (YProofsWitness.XFtrunc UMinute) (YValue.VAtom a) (YValue.VAtom a) = YModel.Err YModel.EType /\
+    YProofsAtoms.leaf_ok (YProofsWitness.XFtrunc UMinute) a = false.
+Proof. exact YProofsWitness.y_trunc_date_leaf_refuted. Qed.
+Print Assumptions C11x_truncate_date_raises_refuted.
+
+Theorem C11x_truncate_timedelta_raises_refuted :
+  exists a, YProofsWitness.xrun YProofsWitness.xcdef YModel.no_opts (YValue.VAtom a) (YValue.VAtom a) = YModel.Ok ([], []) /\
+    YProofsWitness.xrun YProofsWitness.xcdef (YProofsWitness.XFtrunc UMinute) (YValue.VAtom a) (YValue.VAtom a) = YModel.Err YModel.EAttr.
+Proof. exact YProofsWitness.y_trunc_td_leaf_refuted. Qed.
+Print Assumptions C11x_truncate_timedelta_raises_refuted.
+
+Theorem C11x_timedelta_set_raises_refuted :          (* C11-SIG-TIMEDELTA-SET *)
+  exists a, YProofsWitness.xrun YProofsWitness.xcdef YModel.no_opts (YValue.VSet [a]) (YValue.VSet [a]) = YModel.Ok ([], []) /\
+    YProofsWitness.xrun YProofsWitness.xcdef (YProofsWitness.XFsig 2) (YValue.VSet [a]) (YValue.VSet [a]) = YModel.Err YModel.EType /\
+    YProofsAlt.member_ok (YProofsWitness.XFsig 2) a = false.
+Proof. exact YProofsWitness.y_set_td_refuted. Qed.
+Print Assumptions C11x_timedelta_set_raises_refuted.
+
+Theorem C11x_nan_zero_digits_set_raises_refuted :    (* C11-SIG0-NAN *)
+  exists a, YProofsWitness.xrun YProofsWitness.xcdef YModel.no_opts (YValue.VSet [a]) (YValue.VSet [a]) = YModel.Ok ([], []) /\
+    YProofsWitness.xrun YProofsWitness.xcdef (YProofsWitness.XFsig 0) (YValue.VSet [a]) (YValue.VSet [a]) = YModel.Err YModel.EValue /\
+    YProofsAlt.member_ok (YProofsWitness.XFsig 0) a = false.
+Proof. exact YProofsWitness.y_set_nan0_refuted. Qed.
+Print Assumptions C11x_nan_zero_digits_set_raises_refuted.
+
+Theorem C11x_nan_zero_digits_key_raises_refuted :
+  exists k, YProofsWitness.xrun YProofsWitness.xcdef YModel.no_opts (YValue.VDict [(k, YProofsWitness.xvi 1)])
+              (YValue.VDict [(k, YProofsWitness.xvi 1)]) = YModel.Ok ([], []) /\
+    YProofsWitness.xrun YProofsWitness.xcdef (YProofsWitness.XFcase_sig 0) (YValue.VDict [(k, YProofsWitness.xvi 1)])
+              (YValue.VDict [(k, YProofsWitness.xvi 1)]) = YModel.Err YModel.EValue /\
+    YProofsAtoms.key_cleanable (YProofsWitness.XFcase_sig 0) k = false.
+Proof. exact YProofsWitness.y_key_nan0_refuted. Qed.
+Print Assumptions C11x_nan_zero_digits_key_raises_refuted.
+
+Theorem C11x_numeric_group_datetime_raises_refuted : (* C11-NUMGROUP-DATETIME, through difflib opcodes that pair a number with a datetime *)
+  exists t, YProofsLists.tiles (YProofsWitness.yops_shift [] [] []) 0 0 2 2 = true /\
+    YModel.run_optF YProofsWitness.xud0 YProofsWitness.yops_shift YProofsWitness.xcdef YModel.no_opts t t = YModel.Ok ([], []) /\
+    YModel.run_optF YProofsWitness.xud0 YProofsWitness.yops_shift YProofsWitness.xcdef YProofsWitness.XFnumty t t = YModel.Err YModel.EType /\
+    YProofsAlt.guard YProofsWitness.XFnumty YProofsWitness.xcdef t = false.
+Proof. exact YProofsWitness.y_items_guard_refuted. Qed.
+Print Assumptions C11x_numeric_group_datetime_raises_refuted.
+
+(* clause 1 refuted for use_enum_value: None against a member whose value is None (C11-ENUM-NONE); two members of one class *)
+Theorem C11x_enum_none_refuted :
+  exists a b, YValue.atom_eqb (YModel.unwrap YProofsWitness.XFenum a) (YModel.unwrap YProofsWitness.XFenum b) = true /\
+    YProofsAtoms.enum_rel YProofsWitness.XFenum a b = false /\
+    exists r, YProofsWitness.xrun YProofsWitness.xcdef YProofsWitness.XFenum (YValue.VAtom a) (YValue.VAtom b) = YModel.Ok r /\ fst r <> [].
+Proof. exact YProofsWitness.y_enum_none_refuted. Qed.
+Print Assumptions C11x_enum_none_refuted.
+
+Theorem C11x_enum_same_class_refuted :
+  exists a b, YValue.atom_eqb (YModel.unwrap YProofsWitness.XFenum a) (YModel.unwrap YProofsWitness.XFenum b) = true /\
+    exists r, YProofsWitness.xrun YProofsWitness.xcdef YProofsWitness.XFenum (YValue.VAtom a) (YValue.VAtom b) = YModel.Ok r /\ fst r <> [].
+Proof. exact YProofsWitness.y_enum_same_class_refuted. Qed.
+Print Assumptions C11x_enum_same_class_refuted.
+
+(* refuted: datetime options at keys / in sets, truncation before the zone *)
 Theorem C11x_truncate_key_refuted :
-  exists a b k k', a = XValue.VDict [(k, XProofsWitness.xvi 1)] /\ b = XValue.VDict [(k', XProofsWitness.xvi 1)] /\
-    XProofsAtoms.dt_full (XProofsWitness.XFtrunc UMinute) k k' = true /\
-    exists r, XProofsWitness.xrun XProofsWitness.xcdef (XProofsWitness.XFtrunc UMinute) a b = XModel.Ok r /\ fst r <> [].
-Proof. exact XProofsWitness.x_trunc_key_refuted. Qed.
+  exists a b k k', a = YValue.VDict [(k, YProofsWitness.xvi 1)] /\ b = YValue.VDict [(k', YProofsWitness.xvi 1)] /\
+    YProofsAtoms.dt_full (YProofsWitness.XFtrunc UMinute) k k' = true /\
+    exists r, YProofsWitness.xrun YProofsWitness.xcdef (YProofsWitness.XFtrunc UMinute) a b = YModel.Ok r /\ fst r <> [].
+Proof. exact YProofsWitness.x_trunc_key_refuted. Qed.
 Print Assumptions C11x_truncate_key_refuted.
 
 Theorem C11x_truncate_set_refuted :
-  exists k k', XProofsAtoms.dt_full (XProofsWitness.XFtrunc UMinute) k k' = true /\
-    exists r, XProofsWitness.xrun XProofsWitness.xcdef (XProofsWitness.XFtrunc UMinute) (XValue.VSet [k]) (XValue.VSet [k']) = XModel.Ok r /\ fst r <> [].
-Proof. exact XProofsWitness.x_trunc_set_refuted. Qed.
+  exists k k', YProofsAtoms.dt_full (YProofsWitness.XFtrunc UMinute) k k' = true /\
+    exists r, YProofsWitness.xrun YProofsWitness.xcdef (YProofsWitness.XFtrunc UMinute) (YValue.VSet [k]) (YValue.VSet [k']) = YModel.Ok r /\ fst r <> [].
+Proof. exact YProofsWitness.x_trunc_set_refuted. Qed.
 Print Assumptions C11x_truncate_set_refuted.
 
 Theorem C11x_default_timezone_key_refuted :
-  exists k k', XProofsAtoms.dt_full (XProofsWitness.XFtz 120) k k' = true /\
-    exists r, XProofsWitness.xrun XProofsWitness.xcdef (XProofsWitness.XFtz 120)
-                (XValue.VDict [(k, XProofsWitness.xvi 1)]) (XValue.VDict [(k', XProofsWitness.xvi 1)]) = XModel.Ok r /\ fst r <> [].
-Proof. exact XProofsWitness.x_tz_key_refuted. Qed.
+  exists k k', YProofsAtoms.dt_full (YProofsWitness.XFtz 120) k k' = true /\
+    exists r, YProofsWitness.xrun YProofsWitness.xcdef (YProofsWitness.XFtz 120)
+                (YValue.VDict [(k, YProofsWitness.xvi 1)]) (YValue.VDict [(k', YProofsWitness.xvi 1)]) = YModel.Ok r /\ fst r <> [].
+Proof. exact YProofsWitness.x_tz_key_refuted. Qed.
 Print Assumptions C11x_default_timezone_key_refuted.
 
 Theorem C11x_truncate_before_zone_monotone_refuted :
-  exists a b, XProofsWitness.xrun XProofsWitness.xcdef XModel.no_opts a b = XModel.Ok ([], []) /\
-    exists r, XProofsWitness.xrun XProofsWitness.xcdef (XProofsWitness.XFtrunc UHour) a b = XModel.Ok r /\ fst r <> [].
-Proof. exact XProofsWitness.x_trunc_before_tz_monotone_refuted. Qed.
+  exists a b, YProofsWitness.xrun YProofsWitness.xcdef YModel.no_opts a b = YModel.Ok ([], []) /\
+    exists r, YProofsWitness.xrun YProofsWitness.xcdef (YProofsWitness.XFtrunc UHour) a b = YModel.Ok r /\ fst r <> [].
+Proof. exact YProofsWitness.x_trunc_before_tz_monotone_refuted. Qed.
 Print Assumptions C11x_truncate_before_zone_monotone_refuted.
 
 Theorem C11x_default_timezone_monotone_refuted :
-  exists a b, XProofsWitness.xrun XProofsWitness.xcdef XModel.no_opts a b = XModel.Ok ([], []) /\
-    exists r, XProofsWitness.xrun XProofsWitness.xcdef (XProofsWitness.XFtz 120) a b = XModel.Ok r /\ fst r <> [].
-Proof. exact XProofsWitness.x_default_timezone_monotone_refuted. Qed.
+  exists a b, YProofsWitness.xrun YProofsWitness.xcdef YModel.no_opts a b = YModel.Ok ([], []) /\
+    exists r, YProofsWitness.xrun YProofsWitness.xcdef (YProofsWitness.XFtz 120) a b = YModel.Ok r /\ fst r <> [].
+Proof. exact YProofsWitness.x_default_timezone_monotone_refuted. Qed.
 Print Assumptions C11x_default_timezone_monotone_refuted.
 
+(** * Option COMPOSITION: an option only removes differences, also when it is added to other options.
+      [ole F G]: G has every ignore / tolerance option of F (ignore_string_case, ignore_string_type_changes,
+      ignore_numeric_type_changes, ignore_nan_inequality, use_enum_value, exclude_types, significant_digits,
+      math_epsilon, truncate_datetime); default_timezone and the notation are shared parameters.  For ALL atoms a b:
+      what the leaf comparison reports under G sits at the path of something it reports under F; in particular
+      F-empty implies G-empty.  Taking F := A and G := A + B (and F := B): result(A and B) embeds into result(A)
+      and into result(B). *)
+Theorem C11x_compose_leaf_empty :
+  forall udiff F G, YProofsComp.ole F G ->
+  forall a b p1 p2 q1 q2 eG, YProofsComp.pair_ok F G a b ->
+  YModel.leafR udiff F a b p1 p2 = YModel.Ok [] -> YModel.leafR udiff G a b q1 q2 = YModel.Ok eG -> eG = [].
+Proof. exact YProofsComp.leafR_mono. Qed.
+Print Assumptions C11x_compose_leaf_empty.
+
+Theorem C11x_compose_leaf_entrywise :
+  forall udiff F G, YProofsComp.ole F G ->
+  forall a b p1 p2 q2 eF eG, YProofsComp.pair_ok F G a b ->
+  YModel.leafR udiff F a b p1 p2 = YModel.Ok eF -> YModel.leafR udiff G a b p1 q2 = YModel.Ok eG -> YProofsComp.covers eF eG.
+Proof. exact YProofsComp.leafR_covers. Qed.
+Print Assumptions C11x_compose_leaf_entrywise.
+
+(* numbers that Python finds equal (int / bool / float / Decimal of one exact value) are rendered alike under every precision *)
+Theorem C11x_equal_numbers_render_alike :
+  forall F d a b, YModel.o_note F = false -> YProofsCompNum.is_num a = true -> YProofsCompNum.is_num b = true ->
+  YValue.py_eq a b = true -> YModel.nstr F d a = YModel.nstr F d b.
+Proof. exact YProofsCompNum.nstr_py_eq. Qed.
+Print Assumptions C11x_equal_numbers_render_alike.
+
+(* two DISTINCT nan objects under ignore_nan_inequality + math_epsilon: not reported, by the theorem (the corner of the
+   round-3 seeded change C11-8) *)
+Example C11x_compose_nan_eps_instance : forall eG,
+  YModel.leafR YProofsCompWitness.cud0 (YProofsCompWitness.CFnan_eps (0%Z, 0%N)) (YValue.ANan 1) (YValue.ANan 2) [] [] = YModel.Ok eG -> eG = [].
+Proof. exact YProofsCompWitness.nan_eps_by_theorem. Qed.
+
+(* ... and for WHOLE values in the positional list mode: every entry of the result under G sits at the path of an entry
+   of the result under F.  [stable]: the kept keys of every compared dict are pairwise different and key cleaning leaves
+   them alone under both option sets (where keys are cleaned, composition fails: C11-KEY-COLLISION, C11-ALIAS-KEY);
+   set members: equal hash texts under F stay equal under G (fails for K1 tag collisions: C11-TAG-SET); the default
+   list mode is outside (the choice between the difflib pass and the pairwise pass depends on the NUMBER of reports). *)
+From DD Require Options.YProofsCompStruct.
+
+Theorem C11x_compose_partial :
+  forall udiff ops c F G, YProofsComp.ole F G ->
+  forall SU : YValue.atom -> Prop,
+  (forall x y, SU x -> SU y -> YModel.hatomF F x = YModel.hatomF F y ->
+     YModel.hatomF G x = YModel.hatomF G y /\ YModel.excl_hash G x = YModel.excl_hash G y) ->
+  forall KU LU : YValue.atom -> Prop,
+  YValue.zip c = true ->
+  (forall a b, LU a -> LU b -> YProofsComp.pair_ok F G a b) ->
+  forall t1 t2 rF rG,
+  YProofsCompStruct.stable c F G t1 = true -> YProofsCompStruct.stable c F G t2 = true ->
+  YProofsMono.atoms_in KU SU LU t1 -> YProofsMono.atoms_in KU SU LU t2 ->
+  YModel.run_optF udiff ops c F t1 t2 = YModel.Ok rF ->
+  YModel.run_optF udiff ops c G t1 t2 = YModel.Ok rG -> YProofsComp.covers (fst rF) (fst rG).
+Proof. exact YProofsCompStruct.comp_run. Qed.
+Print Assumptions C11x_compose_partial.
+
+Theorem C11x_compose_diff_partial :      (* before mutual_add_removes, at any path *)
+  forall udiff ops c F G, YProofsComp.ole F G ->
+  forall SU : YValue.atom -> Prop,
+  (forall x y, SU x -> SU y -> YModel.hatomF F x = YModel.hatomF F y ->
+     YModel.hatomF G x = YModel.hatomF G y /\ YModel.excl_hash G x = YModel.excl_hash G y) ->
+  forall KU LU : YValue.atom -> Prop,
+  YValue.zip c = true ->
+  (forall a b, LU a -> LU b -> YProofsComp.pair_ok F G a b) ->
+  forall t1 t2 p1 p2 q2 rF rG,
+  YProofsCompStruct.stable c F G t1 = true -> YProofsCompStruct.stable c F G t2 = true ->
+  YProofsMono.atoms_in KU SU LU t1 -> YProofsMono.atoms_in KU SU LU t2 ->
+  YModel.diffF udiff ops c F t1 t2 p1 p2 = YModel.Ok rF ->
+  YModel.diffF udiff ops c G t1 t2 p1 q2 = YModel.Ok rG -> YProofsComp.covers (fst rF) (fst rG).
+Proof. exact YProofsCompStruct.comp_diff. Qed.
+Print Assumptions C11x_compose_diff_partial.
+
+(* the two options A and B together: result(A and B) embeds entry-wise into result(A) AND into result(B) *)
+Theorem C11x_compose_two_options_partial :
+  forall udiff ops c (A B AB : YModel.opts) (KU SU LU : YValue.atom -> Prop),
+  YValue.zip c = true ->
+  YProofsComp.ole A AB -> YProofsComp.ole B AB ->
+  (forall H, H = A \/ H = B -> forall x y, SU x -> SU y -> YModel.hatomF H x = YModel.hatomF H y ->
+     YModel.hatomF AB x = YModel.hatomF AB y /\ YModel.excl_hash AB x = YModel.excl_hash AB y) ->
+  (forall H, H = A \/ H = B -> forall a b, LU a -> LU b -> YProofsComp.pair_ok H AB a b) ->
+  forall t1 t2 rA rB rAB,
+  YProofsCompStruct.stable c A AB t1 = true -> YProofsCompStruct.stable c A AB t2 = true ->
+  YProofsCompStruct.stable c B AB t1 = true -> YProofsCompStruct.stable c B AB t2 = true ->
+  YProofsMono.atoms_in KU SU LU t1 -> YProofsMono.atoms_in KU SU LU t2 ->
+  YModel.run_optF udiff ops c A t1 t2 = YModel.Ok rA ->
+  YModel.run_optF udiff ops c B t1 t2 = YModel.Ok rB ->
+  YModel.run_optF udiff ops c AB t1 t2 = YModel.Ok rAB ->
+  YProofsComp.covers (fst rA) (fst rAB) /\ YProofsComp.covers (fst rB) (fst rAB).
+Proof. exact YProofsCompStruct.comp_and. Qed.
+Print Assumptions C11x_compose_two_options_partial.
+
+(* non-vacuity: A = ignore_string_case + ignore_nan_inequality, B = ignore_string_case + significant_digits=2 on dicts with
+   lists of nan / Decimal / float / str leaves and a set: the three runs, the two embeddings, and fewer entries under A and B *)
+Example C11x_compose_instance :
+  exists rA rB rAB,
+    YModel.run_optF YProofsCompStruct.cs_ud YProofsCompStruct.cs_ops YProofsCompStruct.cs_zip YProofsCompStruct.cs_A
+      YProofsCompStruct.cs_t1 YProofsCompStruct.cs_t2 = YModel.Ok rA /\
+    YModel.run_optF YProofsCompStruct.cs_ud YProofsCompStruct.cs_ops YProofsCompStruct.cs_zip YProofsCompStruct.cs_B
+      YProofsCompStruct.cs_t1 YProofsCompStruct.cs_t2 = YModel.Ok rB /\
+    YModel.run_optF YProofsCompStruct.cs_ud YProofsCompStruct.cs_ops YProofsCompStruct.cs_zip YProofsCompStruct.cs_AB
+      YProofsCompStruct.cs_t1 YProofsCompStruct.cs_t2 = YModel.Ok rAB /\
+    YProofsComp.covers (fst rA) (fst rAB) /\ YProofsComp.covers (fst rB) (fst rAB) /\
+    length (fst rAB) < length (fst rA) /\ length (fst rAB) <= length (fst rB) /\ fst rAB <> [].
+Proof. exact YProofsCompStruct.cs_comp_instance. Qed.
+
+(* where composition FAILS: exactly the side conditions of [ole] / [pair_ok] *)
+Theorem C11x_compose_eps_over_sig_refuted :          (* C11-EPS-OVER-SIG: every field of ole but le_eps *)
+  exists F G a b r, YProofsCompWitness.ole_but_eps F G /\
+    YProofsCompWitness.crun F a b = YModel.Ok ([], []) /\ YProofsCompWitness.crun G a b = YModel.Ok r /\ fst r <> [].
+Proof. exact YProofsCompWitness.comp_eps_over_sig_refuted. Qed.
+Print Assumptions C11x_compose_eps_over_sig_refuted.
+
+Theorem C11x_compose_sig_over_numty_refuted :        (* significant_digits=0 added to ignore_numeric_type_changes (12 digits): every field but le_sig *)
+  exists F G a b r, YProofsCompWitness.ole_but_sig F G /\
+    YProofsCompWitness.crun F a b = YModel.Ok ([], []) /\ YProofsCompWitness.crun G a b = YModel.Ok r /\ fst r <> [].
+Proof. exact YProofsCompWitness.comp_sig_over_numty_refuted. Qed.
+Print Assumptions C11x_compose_sig_over_numty_refuted.
+
+Theorem C11x_compose_truncate_zone_refuted :         (* C11-TRUNC-BEFORE-TZ: ole holds, pair_ok fails *)
+  exists F G a b r, YProofsComp.ole F G /\
+    YProofsCompWitness.crun F (YValue.VAtom a) (YValue.VAtom b) = YModel.Ok ([], []) /\
+    YProofsCompWitness.crun G (YValue.VAtom a) (YValue.VAtom b) = YModel.Ok r /\ fst r <> [] /\ ~ YProofsComp.pair_ok F G a b.
+Proof. exact YProofsCompWitness.comp_trunc_zone_refuted. Qed.
+Print Assumptions C11x_compose_truncate_zone_refuted.
+
 (** * The two models agree: [emb] embeds the shared universe into the extended one (half-integer floats to dyadic
-      rationals in lowest terms, other atoms identical), [embF] the option records (truncate_datetime off,
+      rationals in lowest terms, other atoms identical), [embF] the option records (the new options off,
       default_timezone UTC), [embC] the configuration, [embRes] results (entries, paths, values); the extended model on
       embedded inputs computes the embedding of what the old model computes - for every oracle of the extended
       model that agrees with the old one's on embedded sequences (one always exists: [opsX_of_agree]). *)
-From DD Require Options.OptEmbedNum Options.OptEmbed Options.OptEmbedCor.
+From DD Require Options.OptEmbedNum Options.YEmbed Options.YEmbedCor.
 
 Theorem C11_models_agree :
   forall udiff ops opsX,
-  (forall p xs ys, opsX (OptEmbed.embP p) (map OptEmbed.emb xs) (map OptEmbed.emb ys) = map OptEmbed.embO (ops p xs ys)) ->
+  (forall p xs ys, opsX (YEmbed.embP p) (map YEmbed.emb xs) (map YEmbed.emb ys) = map YEmbed.embO (ops p xs ys)) ->
   forall c F t1 t2,
-  XModel.run_optF udiff opsX (OptEmbed.embC c) (OptEmbed.embF F) (OptEmbed.emb t1) (OptEmbed.emb t2)
-  = OptEmbed.embRes (run_optF udiff ops c F t1 t2).
-Proof. exact OptEmbed.models_agree. Qed.
+  YModel.run_optF udiff opsX (YEmbed.embC c) (YEmbed.embF F) (YEmbed.emb t1) (YEmbed.emb t2)
+  = YEmbed.embRes (run_optF udiff ops c F t1 t2).
+Proof. exact YEmbed.models_agree. Qed.
 Print Assumptions C11_models_agree.
 
 Theorem C11_models_agree_diff :     (* the same before mutual_add_removes, at any pair of paths *)
   forall udiff ops opsX,
-  (forall p xs ys, opsX (OptEmbed.embP p) (map OptEmbed.emb xs) (map OptEmbed.emb ys) = map OptEmbed.embO (ops p xs ys)) ->
+  (forall p xs ys, opsX (YEmbed.embP p) (map YEmbed.emb xs) (map YEmbed.emb ys) = map YEmbed.embO (ops p xs ys)) ->
   forall c F t1 t2 p1 p2,
-  XModel.diffF udiff opsX (OptEmbed.embC c) (OptEmbed.embF F) (OptEmbed.emb t1) (OptEmbed.emb t2) (OptEmbed.embP p1) (OptEmbed.embP p2)
-  = OptEmbed.embRes (diffF udiff ops c F t1 t2 p1 p2).
-Proof. exact OptEmbed.emb_diffF. Qed.
+  YModel.diffF udiff opsX (YEmbed.embC c) (YEmbed.embF F) (YEmbed.emb t1) (YEmbed.emb t2) (YEmbed.embP p1) (YEmbed.embP p2)
+  = YEmbed.embRes (diffF udiff ops c F t1 t2 p1 p2).
+Proof. exact YEmbed.emb_diffF. Qed.
 Print Assumptions C11_models_agree_diff.
 
 Theorem C11_models_agree_empty :
   forall udiff ops opsX,
-  (forall p xs ys, opsX (OptEmbed.embP p) (map OptEmbed.emb xs) (map OptEmbed.emb ys) = map OptEmbed.embO (ops p xs ys)) ->
+  (forall p xs ys, opsX (YEmbed.embP p) (map YEmbed.emb xs) (map YEmbed.emb ys) = map YEmbed.embO (ops p xs ys)) ->
   forall c F t1 t2,
   run_optF udiff ops c F t1 t2 = Ok ([], []) <->
-  XModel.run_optF udiff opsX (OptEmbed.embC c) (OptEmbed.embF F) (OptEmbed.emb t1) (OptEmbed.emb t2) = XModel.Ok ([], []).
-Proof. exact OptEmbed.models_agree_empty. Qed.
+  YModel.run_optF udiff opsX (YEmbed.embC c) (YEmbed.embF F) (YEmbed.emb t1) (YEmbed.emb t2) = YModel.Ok ([], []).
+Proof. exact YEmbed.models_agree_empty. Qed.
 Print Assumptions C11_models_agree_empty.
 
 Theorem C11_agreeing_oracle_exists :
   forall ops p xs ys,
-  OptEmbedCor.opsX_of ops (OptEmbed.embP p) (map OptEmbed.emb xs) (map OptEmbed.emb ys) = map OptEmbed.embO (ops p xs ys).
-Proof. exact OptEmbedCor.opsX_of_agree. Qed.
+  YEmbedCor.opsX_of ops (YEmbed.embP p) (map YEmbed.emb xs) (map YEmbed.emb ys) = map YEmbed.embO (ops p xs ys).
+Proof. exact YEmbedCor.opsX_of_agree. Qed.
 Print Assumptions C11_agreeing_oracle_exists.
 
 (* an old-model theorem as a corollary of the extended model's: clause 3 *)
 Theorem C11_never_raises_via_extended_model :
   forall udiff ops c F t1 t2, exists r, run_optF udiff ops c F t1 t2 = Ok r.
-Proof. exact OptEmbedCor.never_raises_via_extended. Qed.
+Proof. exact YEmbedCor.never_raises_via_extended. Qed.
 Print Assumptions C11_never_raises_via_extended_model.
